@@ -688,6 +688,7 @@ package netty
 //@   ensures is(result, *channel) && fresh(as(result, *channel)) && as(result, *channel) != nil
 //@   ensures config: as(result, *channel).id == id && as(result, *channel).pipeline == pipeline && as(result, *channel).transport == transport && as(result, *channel).executor == executor && as(result, *channel).untilWrite == untilWrite && as(result, *channel).closed == 0 && as(result, *channel).running == 0
 //@   ensures context: as(result, *channel).ctx != nil && as(result, *channel).cancel != nil
+//@   ensures derived_context@C13: ctxparent(as(result, *channel).ctx) == ctx
 //@   ensures async: implies(writeQueueSize > 0, as(result, *channel).writeQueue != nil && cap(as(result, *channel).writeQueue) == writeQueueSize && bufInv(as(result, *channel)) && len(as(result, *channel).writeBuffers) == 0 && len(as(result, *channel).recycleBuffers) == 0)
 //@   ensures sync: implies(writeQueueSize <= 0, as(result, *channel).writeQueue == nil)
 
@@ -840,3 +841,214 @@ package netty
 //@ field bootstrapOptions.channelIDFactory immutable NewBootstrap, WithChannelID
 //@ field bootstrapOptions.executor immutable NewBootstrap, WithExecutor
 //@ field bootstrapOptions.holder immutable NewBootstrap, WithChannelHolder
+
+// ---------------------------------------------------------------------------
+// C13: Shutdown stops every listener and closes every channel.
+// Per-function contracts; the whole-history statement is composed from them by the lemmas below
+// (time stamps of the atomic points; paper step: each lemma hypothesis is one of these posts).
+//@ property C13
+//@ assume iface ChannelHolder.CloseAll
+//@   modifies all
+//@ assume iface Listener.Close
+//@   modifies all
+//@   preserves bootstrap.*, bootstrapOptions.*
+// the callback of Range here is Shutdown$1 (verified below); ASSUMED: Range calls it once for every
+// entry present for the whole duration of the call, as long as it returns true
+//@ assume func =(*sync.Map).Range
+//@   event
+//@   modifies all
+//@   preserves bootstrap.*, bootstrapOptions.*
+//@ assume iface Listener.Sync
+//@   modifies all
+
+//@ spec func bsinv(bs *bootstrap) bool = bs != nil && bs.bootstrapOptions != nil && bs.bootstrapOptions.bootstrapCtx != nil && bs.bootstrapOptions.bootstrapCancel != nil && bs.bootstrapOptions.transportFactory != nil && bs.bootstrapOptions.executor != nil
+//@ spec func lsnInv(l *listener) bool = l != nil && bsinv(l.bs)
+
+//@ func (*bootstrap).Context
+//@   requires bs != nil && bs.bootstrapOptions != nil
+//@   ensures result == bs.bootstrapOptions.bootstrapCtx
+
+// Shutdown: cancel first (so that everything that starts later sees a cancelled context), then every
+// registered listener, then every channel in the holder - with the server-closed error.
+//@ func (*bootstrap).Shutdown
+//@   requires bsinv(bs)
+//@   modifies all
+//@   preserves bootstrap.*, bootstrapOptions.*
+//@   ensures cancel_first: evis(0, "context.CancelFunc") && evarg(0, 0) == old(bs.bootstrapOptions.bootstrapCancel)
+//@   ensures then_every_listener: evis(1, "Range") && evarg(1, 0) == &bs.listeners
+//@   ensures then_every_channel: implies(old(bs.bootstrapOptions.holder) != nil, nemitted() == 3 && evis(2, "ChannelHolder.CloseAll") && evrecv(2) == old(bs.bootstrapOptions.holder) && evarg(2, 0) == ErrServerClosed)
+//@   ensures nothing_else: implies(old(bs.bootstrapOptions.holder) == nil, nemitted() == 2)
+// (the requires of the callback is not checked at a call site: ASSUMED only Listeners are stored in the registry)
+//@ func (*bootstrap).Shutdown$1
+//@   requires is(value, Listener)
+//@   may_panic true
+//@   modifies all
+//@   ensures closes_and_continues: result == true && nemitted() == 1 && evis(0, "Listener.Close") && evrecv(0) == as(value, Listener)
+
+// Listener.Close: marks the listener closed under its mutex and closes the acceptor that exists at
+// that moment (guarded fields are re-read at the lock: other threads' updates become visible there,
+// so posts speak about the values held at the END of the critical section = the final ones here).
+//@ func (*bootstrap).removeListener
+//@   requires bs != nil
+//@   ensures unregisters: nemitted() == 1 && evis(0, "Delete") && evarg(0, 0) == &bs.listeners
+//@ func (*listener).Close
+//@   event
+//@   requires lsnInv(l)
+//@   modifies listener.closed, listener.acceptor, listener.options
+//@   ensures one_critical_section: count("lock l.mutex") == 1 && count("unlock l.mutex") == 1 && first("lock l.mutex") < first("unlock l.mutex")
+//@   ensures marks_closed: l.closed == true
+//@   ensures acceptor_closed_or_absent: iff(l.acceptor != nil, count("Acceptor.Close") == 1) && count("Acceptor.Close") <= 1 && implies(count("Acceptor.Close") == 1, first("unlock l.mutex") < first("Acceptor.Close") && evrecv(first("Acceptor.Close")) == l.acceptor)
+//@ field listener.closed storesconst true
+
+// listen: decides under the same mutex; a closed listener, or a cancelled bootstrap, never listens.
+//@ func (*listener).listen
+//@   event
+//@   requires lsnInv(l)
+//@   modifies listener.acceptor, listener.options, listener.closed, transport.Options.*
+//@   ensures under_lock: evis(0, "lock l.mutex") && evis(nemitted()-1, "unlock l.mutex") && count("lock l.mutex") == 1 && count("unlock l.mutex") == 1
+//@   ensures closed_listener_never_listens: implies(l.closed || old(chclosed(ctxdone(l.bs.bootstrapOptions.bootstrapCtx))), result2 == ErrServerClosed && count("Factory.Listen") == 0)
+//@   ensures success_publishes_acceptor: implies(result2 == nil, result0 != nil && result1 != nil && l.acceptor == result0 && l.options == result1 && result1.Context != nil && ctxdone(result1.Context) == ctxdone(l.bs.bootstrapOptions.bootstrapCtx) && !l.closed)
+//@   ensures success_listened_once: implies(result2 == nil, count("Factory.Listen") == 1)
+//@   ensures failure_returns_nothing: implies(result2 != nil, result0 == nil && result1 == nil)
+
+// ServeChannel: the channel is created over the given context and transport; the holder is put in
+// front of whatever the initializer installed (so it sees active first / inactive first), then the
+// channel is served.
+//@ assume functype github.com/go-netty/go-netty.PipelineFactory
+//@   ensures_assumed result != nil
+//@ assume functype github.com/go-netty/go-netty.ChannelIDFactory
+//@ assume functype github.com/go-netty/go-netty.ChannelFactory
+//@   ensures_assumed result != nil
+//@ assume functype github.com/go-netty/go-netty.ChannelInitializer
+//@ assume iface Channel.SetAttachment
+//@ assume iface Pipeline.AddFirst
+//@   ensures_assumed result != nil
+//@ assume iface Pipeline.ServeChannel
+//@   modifies all
+//@   preserves bootstrap.*, bootstrapOptions.*, listener.*, transport.Options.*
+//@ func (*bootstrap).ServeChannel
+//@   event
+//@   requires bsinv(bs) && bs.bootstrapOptions.channelFactory != nil && bs.bootstrapOptions.pipelineFactory != nil && bs.bootstrapOptions.channelIDFactory != nil && implies(childChannel, bs.bootstrapOptions.childInitializer != nil) && implies(!childChannel, bs.bootstrapOptions.clientInitializer != nil)
+//@   may_panic true
+//@   modifies all
+//@   preserves bootstrap.*, bootstrapOptions.*, listener.*, transport.Options.*
+//@   ensures channel_over_context_and_transport: evis(2, "ChannelFactory") && evarg(2, 2) == ctx && evarg(2, 3) == evres(0, 0) && evarg(2, 4) == transport && evarg(2, 5) == old(bs.bootstrapOptions.executor) && result == evres(2, 0)
+//@   ensures holder_first_then_serve: implies(old(bs.bootstrapOptions.holder) != nil, evis(nemitted()-2, "Pipeline.AddFirst") && evrecv(nemitted()-2) == evres(0, 0) && len(evarg(nemitted()-2, 0)) == 1 && at(nemitted()-2, evarg(nemitted()-2, 0)[0] == old(bs.bootstrapOptions.holder)) && count("Pipeline.AddFirst") == 1 && first("ChannelInitializer") < first("Pipeline.AddFirst"))
+//@   ensures served_last: evis(nemitted()-1, "Pipeline.ServeChannel") && evarg(nemitted()-1, 0) == result && count("Pipeline.ServeChannel") == 1
+
+// Sync: the accept loop ends only on an accept error; with the (bootstrap-derived) context done
+// the result is the server-closed error; every accepted transport is served once as a child channel.
+//@ func (*listener).Sync
+//@   requires lsnInv(l) && l.bs.bootstrapOptions.channelFactory != nil && l.bs.bootstrapOptions.pipelineFactory != nil && l.bs.bootstrapOptions.channelIDFactory != nil && l.bs.bootstrapOptions.childInitializer != nil
+//@   may_panic true
+//@   modifies all
+//@   preserves bootstrap.*, bootstrapOptions.*, listener.bs, listener.url, listener.option
+//@   loop 0 modifies all
+//@   loop 0 preserves bootstrap.*, bootstrapOptions.*, listener.bs, listener.url, listener.option, transport.Options.*
+//@   loop 0 emits
+//@   loop 0 invariant cfg: lsnInv(l) && acceptor != nil && options != nil && options.Context != nil
+//@   loop 0 invariant ctx_derived: ctxdone(options.Context) == ctxdone(l.bs.bootstrapOptions.bootstrapCtx)
+//@   loop 0 invariant accept_then_serve: implies(nemitted() > 0, nemitted() == 2 && evis(0, "Acceptor.Accept") && evrecv(0) == acceptor && evres(0, 1) == nil && evis(1, "netty.bootstrap.ServeChannel") && evarg(1, 1) == options.Context && evarg(1, 2) == evres(0, 0) && evarg(1, 4) == true)
+//@   ensures listens_first: evis(0, "netty.listener.listen") && implies(evres(0, 2) != nil, nemitted() == 1 && result == evres(0, 2))
+//@   ensures ends_on_accept_error: implies(evres(0, 2) == nil, last("Acceptor.Accept") == nemitted()-3 && evres(nemitted()-3, 1) != nil && evrecv(nemitted()-3) == evres(0, 0))
+//@   ensures server_closed_after_shutdown: implies(evres(0, 2) == nil && chclosed(ctxdone(old(l.bs.bootstrapOptions.bootstrapCtx))), result == ErrServerClosed)
+
+//@ func (*listener).Async
+//@   requires lsnInv(l) && fn != nil
+//@   modifies all
+//@   ensures hands_over_to_executor: nemitted() == 1 && evis(0, "Executor.Exec") && evrecv(0) == old(l.bs.bootstrapOptions.executor)
+
+// Connect: a client channel is served over the (bootstrap-derived) context of its options.
+//@ func (*bootstrap).Connect
+//@   requires bsinv(bs) && bs.bootstrapOptions.channelFactory != nil && bs.bootstrapOptions.pipelineFactory != nil && bs.bootstrapOptions.channelIDFactory != nil && bs.bootstrapOptions.clientInitializer != nil
+//@   may_panic true
+//@   modifies all
+//@   preserves bootstrap.*, bootstrapOptions.*
+//@   ensures parse_connect_serve: evis(0, "ParseOptions") && evarg(0, 0) == old(bs.bootstrapOptions.bootstrapCtx) && implies(result1 == nil, nemitted() == 3 && evis(1, "Factory.Connect") && evis(2, "netty.bootstrap.ServeChannel") && evarg(2, 2) == evres(1, 0) && evarg(2, 4) == false && result0 == evres(2, 0) && ctxdone(evarg(2, 1)) == ctxdone(old(bs.bootstrapOptions.bootstrapCtx)))
+//@   ensures failure_serves_nothing: implies(result1 != nil, count("netty.bootstrap.ServeChannel") == 0 && result0 == nil)
+
+// Listen: the listener is registered (for Shutdown to find) before it is returned.
+//@ func (*bootstrap).Listen
+//@   requires bsinv(bs)
+//@   may_panic true
+//@   modifies nothing
+//@   ensures registered_before_return: evis(nemitted()-1, "LoadOrStore") && evarg(nemitted()-1, 0) == &bs.listeners && is(result, *listener) && evarg(nemitted()-1, 2) == result && !evres(nemitted()-1, 1)
+//@   ensures fresh_unstarted_listener: as(result, *listener).bs == bs && as(result, *listener).url == url && as(result, *listener).acceptor == nil && !as(result, *listener).closed && fresh(as(result, *listener))
+
+// ---------------------------------------------------------------------------
+// channel holder: the map is only touched inside the mutex; CloseAll swaps the map out under the
+// lock and closes every channel of the old map with the given error.
+//@ property C13 C12
+//@ assume iface Channel.ID
+//@   noevent
+//@ spec func hinv(c *channelHolder) bool = c != nil
+//@ struct channelHolder lockinv mutex map_allocated: self.channels != nil
+//@ field channelHolder.channels mapvalues nonnil
+//@ assume iface InactiveContext.HandleInactive
+//@   modifies all
+//@   may_panic true
+//@ assume iface ActiveContext.HandleActive
+//@   modifies all
+//@   may_panic true
+//@ func NewChannelHolder
+//@   ensures allocated: is(result, *channelHolder) && as(result, *channelHolder).channels != nil && fresh(as(result, *channelHolder))
+//@ func (*channelHolder).addChannel
+//@   event
+//@   requires hinv(c) && ch != nil
+//@   may_panic true
+//@   modifies channelHolder.channels
+//@   ensures inserted_under_lock: evis(0, "lock c.mutex") && evis(nemitted()-1, "unlock c.mutex") && count("lock c.mutex") == 1 && count("unlock c.mutex") == 1 && count("mapupdate c.channels") == 1 && evarg(first("mapupdate c.channels"), 2) == ch && !evres(first("maplookup c.channels"), 1)
+//@   ensures_panic duplicate_not_inserted: count("mapupdate c.channels") == 0 && evis(nemitted()-1, "unlock c.mutex") && evres(first("maplookup c.channels"), 1)
+//@ func (*channelHolder).delChannel
+//@   event
+//@   requires hinv(c) && ch != nil
+//@   modifies channelHolder.channels
+//@   ensures deleted_under_lock: evis(0, "lock c.mutex") && evis(nemitted()-1, "unlock c.mutex") && count("mapdelete c.channels") == 1 && nemitted() == 3
+//@ func (*channelHolder).CloseAll
+//@   requires hinv(c)
+//@   may_panic true
+//@   modifies all
+//@   preserves channelHolder.mutex
+//@   loop 0 modifies all
+//@   loop 0 emits
+//@   loop 0 invariant each_channel_closed_with_err: implies(nemitted() > 0, nemitted() == 2 && evis(0, "mapnext") && evres(0, 0) && evis(1, "Channel.Close") && evrecv(1) == evres(0, 2) && evarg(1, 0) == err)
+//@   ensures swapped_under_lock: evis(0, "lock c.mutex") && evis(1, "unlock c.mutex") && count("lock c.mutex") == 1
+//@   ensures range_runs_to_the_end: evis(nemitted()-1, "mapnext") && !evres(nemitted()-1, 0)
+//@ func (*channelHolder).HandleActive
+//@   requires hinv(c) && ctx != nil
+//@   may_panic true
+//@   modifies all
+//@   ensures registered_before_forwarding: evis(0, "netty.channelHolder.addChannel") && implies(!panicked(), nemitted() == 2 && evis(1, "ActiveContext.HandleActive") && evrecv(1) == ctx)
+//@ func (*channelHolder).HandleInactive
+//@   requires hinv(c) && ctx != nil
+//@   may_panic true
+//@   modifies all
+//@   ensures unregistered_before_forwarding: evis(0, "netty.channelHolder.delChannel") && implies(!panicked(), nemitted() == 2 && evis(1, "InactiveContext.HandleInactive") && evrecv(1) == ctx && evarg(1, 0) == ex)
+
+// ---------------------------------------------------------------------------
+// C13 composition lemmas over the time stamps of the atomic points (mutex critical sections are
+// totally ordered; the closed flag, a cancelled context and a closed Done channel are monotone).
+// Each hypothesis is one of the per-function posts above (named in the comment), so a change that
+// breaks a post breaks the hypothesis the lemma needs; the lemma itself is discharged by SMT.
+//@ property C13
+// A listener registered when Shutdown ran: either it never creates an acceptor, or Shutdown closed it.
+//   tCancel < tCloseCS                     Shutdown#cancel_first + then_every_listener + Shutdown$1#closes_and_continues
+//   sawClosed  <=> tCloseCS < tListenCS    listener.Close#marks_closed (under the mutex; listener.closed is never reset: #protect:closed.storesconst)
+//   tCancel < tListenCS => sawCtxDone      the bootstrap context is cancelled for good
+//   sawClosed or sawCtxDone => !listened   listen#closed_listener_never_listens
+//   listened => published                  listen#success_publishes_acceptor (same critical section)
+//   seenByClose <=> published and tListenCS < tCloseCS      mutex
+//   acceptorClosed <=> seenByClose         listener.Close#acceptor_closed_or_absent
+//@ lemma shutdown_leaves_no_listener(tCancel int, tCloseCS int, tListenCS int, sawClosed bool, sawCtxDone bool, listened bool, published bool, seenByClose bool, acceptorClosed bool) implies(tCancel < tCloseCS && tCloseCS != tListenCS && iff(sawClosed, tCloseCS < tListenCS) && implies(tCancel < tListenCS, sawCtxDone) && implies(sawClosed || sawCtxDone, !listened) && implies(listened, published) && iff(seenByClose, published && tListenCS < tCloseCS) && iff(acceptorClosed, seenByClose), !listened || acceptorClosed)
+// A channel whose active event passes the holder: either CloseAll finds it in the map it swapped
+// out, or the first check of its read loop sees the cancelled context and the loop exits into Close.
+//   tCancel < tSwap                        Shutdown#cancel_first + then_every_channel
+//   tAdd < tCheck                          readLoop: active (holder.HandleActive#registered_before_forwarding) precedes the loop
+//   inOldMap <=> tAdd < tSwap              addChannel#inserted_under_lock, CloseAll#swapped_under_lock (mutex)
+//   inOldMap => closedByCloseAll           CloseAll#each_channel_closed_with_err + range_runs_to_the_end (or already closed: delChannel only on inactive)
+//   tCancel < tCheck => exits              derived context (newChannelWith#derived_context, ParseOptions/ServeChannel ctx) + readLoop#stops_when_cancelled + exits_through_close
+//@ lemma shutdown_closes_every_channel(tCancel int, tSwap int, tAdd int, tCheck int, inOldMap bool, closedByCloseAll bool, exits bool) implies(tCancel < tSwap && tAdd != tSwap && tAdd < tCheck && iff(inOldMap, tAdd < tSwap) && implies(inOldMap, closedByCloseAll) && implies(tCancel < tCheck, exits), closedByCloseAll || exits)
+// The accept loop of a listener whose acceptor was closed by Shutdown ends with ErrServerClosed:
+//   Accept fails after the acceptor is closed (ASSUMED of acceptors; tcp: tcpAcceptor.Close#closes_listener_once + Accept#closed_acceptor_reports_the_error)
+//   the context was cancelled before the acceptor was closed => Sync#server_closed_after_shutdown
+//@ lemma accept_loop_ends_server_closed(tCancel int, tAcceptorClose int, tAcceptFail int, ctxDoneAtFail bool, serverClosed bool) implies(tCancel < tAcceptorClose && tAcceptorClose <= tAcceptFail && implies(tCancel < tAcceptFail, ctxDoneAtFail) && implies(ctxDoneAtFail, serverClosed), serverClosed)
